@@ -175,3 +175,26 @@ def run(chk):
             chk.traces += 1
             chk.nontriv(('tr', r.id, i))
     chk.extra_cov['records_with_panic_skipped_see_C05'] = npanic
+    # the compact tessellation's own view (op tess, periodic records): VoronoiFace::{shift, is_periodic, is_boundary}
+    binary, _ = cargo_build()
+    if binary is not None:
+        rec_f = os.path.join(chk.wdir(), 'tess.rec')
+        rc, fams, err = run_harness(binary, 'tess', chk.seed, chk.tier, rec_f)
+        nacc = 0
+        for r in (read_records(rec_f) if rc == 0 else []):
+            inp = parse_input(r.inp)
+            if not inp.periodic:
+                continue
+            impl = parse_tess_impl(r.res)
+            if 'panic' in impl or 'acc' not in impl:
+                continue
+            chk.count()
+            rp = {'op': 'tess', 'ids': [r.id], 'family': r.family, 'record': r.line[:3000]}
+            for pr in accessor_problems(impl):
+                chk.violation('impl-vs-oracle', '%s (record %d, %s)' % (pr, r.id, r.family), rp, key='accessor')
+            for j, f in enumerate(impl['faces']):
+                if impl['acc']['pb'][j][1] == '1' and f.area is not None and f.area > Tol(inp).area and not Tol(inp).ill:
+                    chk.violation('impl-vs-oracle', 'periodic tessellation stores a boundary face (is_boundary) of area %s (record %d, %s, face %d)' % (fl(f.area), r.id, r.family, j), rp, key='boundary-face')
+            nacc += 1
+        chk.extra_cov['tess_records_accessors_checked'] = nacc
+
